@@ -1,6 +1,7 @@
 package main
 
 import (
+	"go/token"
 	"regexp"
 	"fmt"
 	"go/types"
@@ -528,6 +529,28 @@ func bodyClosedOnEveryExit(r *R) {
 	r.check(okH, "proxyHandler.ServeHTTP#body-closed", sh.Pos(), "handler mode closes the outgoing request body", "handler mode no longer closes the request body")
 }
 
+// madeByCaller: every source of v is the result of a call or an allocation in the calling function - not one of its
+// parameters, not something loaded from a field (req.URL) or a package variable.
+func madeByCaller(v ssa.Value) bool {
+	made, foreign := false, false
+	backward(v, func(x ssa.Value) bool {
+		switch y := x.(type) {
+		case *ssa.Parameter, *ssa.FreeVar, *ssa.Global, *ssa.Lookup:
+			foreign = true
+		case *ssa.UnOp:
+			if y.Op == token.MUL {
+				if _, isLocal := y.X.(*ssa.Alloc); !isLocal {
+					foreign = true
+				}
+			}
+		case *ssa.Call, *ssa.Alloc:
+			made = true
+		}
+		return false
+	})
+	return made && !foreign
+}
+
 func c01r9(r *R) {
 	for _, fn := range r.modFuncsAll() {
 		nm := fname(fn)
@@ -537,6 +560,9 @@ func c01r9(r *R) {
 		var urlParams []*ssa.Parameter
 		for _, p := range fn.Params {
 			if typeStr(p.Type()) == "*net/url.URL" {
+				if a := soleCallArg(p); a != nil && madeByCaller(a) {
+					continue // a helper split out of one function, handed a URL that function built itself
+				}
 				urlParams = append(urlParams, p)
 			}
 		}
